@@ -508,14 +508,37 @@ def rule_check_finite(rep: Report, repo: Repo):
         ok = bool(calls) and all(any(c.id in dom[t.id] for c in calls) for t in trial + evaln)
         rep.check(ok, R, f"series::BlockSeries.__getitem__ `self.{name}(...)` dominates index resolution and evaluation",
                   "validation happens before any element is evaluated", repo.loc("series", g))
-        okarg = bool(calls) and all(len(c.ast.value.args) == 1 and norm(c.ast.value.args[0]) in argtext for c in calls)
+        from .resolve import env_at, rtext
+        okarg = bool(calls) and all(len(c.ast.value.args) == 1 and (norm(c.ast.value.args[0]) in argtext or
+                                    rtext(c.ast.value.args[0], env_at(c.ast, g)) in argtext) for c in calls)
         rep.check(okarg, R, f"series::BlockSeries.__getitem__ `self.{name}` receives {argtext[0]}",
                   norm(calls[0].ast) if calls else "missing", repo.loc("series", g))
     # _check_number_perturbations rejects a wrong number of indices
     h = repo.find("series::BlockSeries::_check_number_perturbations", R)
-    tests = [n for n in own_nodes(h) if isinstance(n, ast.If)]
-    ok = len(tests) == 1 and norm(tests[0].test) in (
-        "len(item) != len(self.shape) + self.n_infinite", "len(item) != self.n_infinite + len(self.shape)") \
-        and isinstance(tests[0].body[0], ast.Raise) and "IndexError" in norm(tests[0].body[0])
-    rep.check(ok, R, "series::BlockSeries._check_number_perturbations raises IndexError unless len(item) == len(shape) + n_infinite",
-              norm(tests[0].test) if tests else "", repo.loc("series", h))
+    from itertools import product as _prod
+
+    from .e2c import _const_eval
+    from .sem import outcomes as _outcomes
+    outs = _outcomes(h.body, None, env={})
+    bad, undecided = [], None
+    for a, b, c in _prod(range(4), repeat=3):
+        sub = {"len(item)": a, "len(self.shape)": b, "self.n_infinite": c}
+        taken = []
+        for o in outs:
+            vals = [(_const_eval(t, sub), p) for t, p in o.conds]
+            if any(v is None for v, _ in vals):
+                undecided = norm(o.conds[[v for v, _ in vals].index(None)][0])
+                break
+            if all(v == p for v, p in vals):
+                taken.append(o)
+        if undecided:
+            break
+        raised = [o for o in taken if o.kind == "raise"]
+        is_index_error = all("IndexError" in norm(o.value) for o in raised)
+        want_raise = a != b + c
+        if (bool(raised) != want_raise) or (raised and not is_index_error) or len(taken) != 1:
+            bad.append((a, b, c, [o.kind for o in taken]))
+    if undecided:
+        raise AnalysisError(R, f"_check_number_perturbations: condition `{undecided[:70]}` is not a closed comparison of the three lengths")
+    rep.check(not bad, R, "series::BlockSeries._check_number_perturbations raises IndexError unless len(item) == len(shape) + n_infinite",
+              f"evaluated on 64 (len(item), len(shape), n_infinite) triples; disagreeing: {bad[:3]}", repo.loc("series", h))
